@@ -399,6 +399,18 @@ def value_within(ctx: Ctx, f: FuncInfo, node: ast.AST, val: ast.expr, lo, hi):
                     upper = iv[0] - 1
                     if low is not None and (lo is None or low >= lo) and (hi is None or upper <= hi):
                         return True, f"value in [{low}, {upper}] (shape of `{norm(la[0])[:40]}`, range check `{norm(t.ast)}`)"
+    # a value that comes out of repository code this rule does not look into (a method of a collaborator object, the
+    # conversion of a value object ...) is not known to be unbounded: no verdict
+    try:
+        tr_ = ast.parse(c, mode="eval").body
+    except SyntaxError:
+        tr_ = None
+    if tr_ is not None:
+        for n_ in ast.walk(tr_):
+            if isinstance(n_, ast.Call):
+                nm_ = n_.func.id if isinstance(n_.func, ast.Name) else n_.func.attr if isinstance(n_.func, ast.Attribute) else ""
+                if nm_ not in ("int", "float", "round", "str", "len", "min", "max", "abs", "bool", "next", "iter", "range", "sorted", "sum", "divmod", "pow", "get", "keys", "values", "items", "strip", "lstrip", "rstrip", "split", "trunc", "floor", "ceil"):
+                    raise AnalysisError(f"VALID-SYM: the value stored at {ctx.loc(f, val)} is `{c[:70]}`: what `{nm_}(...)` returns is not modelled by the range argument")
     return False, f"value `{c[:60]}` is unbounded"
 
 
